@@ -17,12 +17,12 @@ CHECK = {
     ],
     "rule": "rapid draws (network, table spec list, list of radius reports {node, ping|pong, payload type, radius class relative to the node's distance, truncated?, "
             "back-to-back?}, source kind, content key, batch size 1..64); 40% of the plans use a content id within log-distance 246 of the local id (found by hashing about a thousand candidate keys), so that table nodes in buckets 247..256 "
-            "lie at different log-distances from the content: 'window' tables (two full buckets plus 1..3 covered nodes in the next one, the source mostly among the nearest 32) and 'ladder' tables (0..3 nodes per bucket, most covered). Non-trivial = > 8 covered candidates, source among the closest covered nodes, an "
+            "lie at different log-distances from the content: 'window' tables (two full buckets plus 1..3 covered nodes in the next one, the source mostly among the nearest 32) and 'ladder' tables (0..3 nodes per bucket, most covered). Up to two table nodes are real discv5 endpoints that answer the node's request for their record with an empty list: their pings/pongs may announce a newer record, the refresh fails, and the reported radius must be recorded all the same. Half of the plans give the local store a radius that is no byte palindrome (the pongs the node sends are compared with it). Non-trivial = > 8 covered candidates, source among the closest covered nodes, an "
             "unknown-radius node among the nearest 32, a radius reported twice, a gossip that selected >= 1 peer; distinct = distinct plan digests.",
     "assumptions": [
         "reports carry an ENR sequence number not above the node's, so no ENR refresh round trip is triggered (outside this property)",
         "at distance == radius either coverage verdict is tolerated",
         "a case in which the table changed during the gossip call is discarded and counted",
     ],
-    "required_classes": {"quick": [">8-covered-candidates", "source-among-closest", "unknown-radius-among-nearest-32", "radius-updated-twice", "gossip-sent", "back-to-back-ping", "net:beacon", "net:state", "source-is-covered-candidate-beyond-the-closest-four", "covered-node-just-outside-the-32-nearest", ">12-covered-candidates-at-distinct-log-distances"]},
+    "required_classes": {"quick": [">8-covered-candidates", "source-among-closest", "unknown-radius-among-nearest-32", "radius-updated-twice", "gossip-sent", "back-to-back-ping", "net:beacon", "net:state", "source-is-covered-candidate-beyond-the-closest-four", "covered-node-just-outside-the-32-nearest", ">12-covered-candidates-at-distinct-log-distances", "radius-updated-by-message-announcing-newer-record", "local-radius-not-a-palindrome"]},
 }
